@@ -25,7 +25,7 @@ type C20Case struct {
 
 const rssCeilingKB = 1 << 20 // 1 GiB
 
-var c20RecShapes = []string{"direct", "mutual2", "mutual3", "match-expr", "match-block", "method-arg", "forin-body", "nested-statements", "heavy-expression", "runaway", "runaway-mutual", "runaway-match", "runaway-heavy-binary", "runaway-heavy-unary", "runaway-heavy-statements", "runaway-match-odd", "runaway-match-block-odd"}
+var c20RecShapes = []string{"direct", "mutual2", "mutual3", "match-expr", "match-block", "method-arg", "forin-body", "nested-statements", "heavy-expression", "repeated", "repeated-per-value", "runaway", "runaway-mutual", "runaway-match", "runaway-heavy-binary", "runaway-heavy-unary", "runaway-heavy-statements", "runaway-match-odd", "runaway-match-block-odd"}
 
 func c20Program(c *C20Case) (prog string, input string, expect string) {
 	n := c.N
@@ -53,6 +53,12 @@ func c20Program(c *C20Case) (prog string, input string, expect string) {
 		case "heavy-expression":
 			// 40 operators deep around the call
 			return "function f(n) { if (n <= 0) { return 0 }\nreturn 1 + f(n - 1)" + strings.Repeat(" + 0", 40) + " }\n" + pre + "print f(" + n + ") }", "", n
+		case "repeated":
+			// the limit is a fixed one: the same recursion performed eight times in one run
+			return "function f(n) { if (n <= 0) { return 0 }\nreturn 1 + f(n - 1) }\n" + pre + "t = 0\nfor (i = 0; i < 8; i++) { t = t + f(" + n + ") }\nprint t / 8 }", "", n
+		case "repeated-per-value":
+			// ... and once for each of 40 input values
+			return "function f(n) { return match (n) { 0 => 0, k => 1 + f(k - 1) } }\n" + pre + "}\n{ t = t + f(" + n + ") + $ }\nEND { print t / 40 }", strings.Repeat("0\n", 40), n
 		case "runaway-heavy-binary":
 			return "function f(n) { return f(n + 1)" + strings.Repeat(" + 1", 100) + " }\n" + pre + "print f(0) }", "", "REFUSED"
 		case "runaway-heavy-unary":
